@@ -132,7 +132,15 @@ impl<Db: Database> Storage<Db> {
     }
 
     fn get_impl<T: 'static>(&self, key: Key) -> Option<&T> {
-        let source_node = self.internal.get_source_node(key)?;
+        let Some(source_node) = self.internal.get_source_node(key) else {
+            // Observing that a source is absent is also a read: the caller must be
+            // invalidated when a source with this key is later set.
+            self.register_dependency_in_parent_memoized_fn(
+                NodeKind::AbsentSource(key),
+                Epoch::new(),
+            );
+            return None;
+        };
 
         self.register_dependency_in_parent_memoized_fn(
             NodeKind::Source(key),
@@ -350,8 +358,10 @@ impl<Db: Database> InternalStorage<Db> {
                 }
             }
             Entry::Vacant(vacant_entry) => {
+                // A new source is an observable change (see NodeKind::AbsentSource).
+                let next_epoch = self.current_epoch.increment();
                 let index = self.insert_source_node(SourceNode {
-                    time_updated: self.current_epoch,
+                    time_updated: next_epoch,
                     value: Box::new(source),
                 });
                 vacant_entry.insert(index);
